@@ -404,6 +404,14 @@ func c09Busy(r *rng, id string) {
 		time.Sleep(time.Millisecond)
 	}
 	inflight := int(ml.VerifPushPullReq(rcv.m))
+	if inflight != stalled {
+		// an overloaded machine: not every stalled exchange has been counted yet, the scenario is not the
+		// one intended - no verdict
+		for _, e := range ends {
+			e.Close()
+		}
+		return
+	}
 	a, b := net.Pipe()
 	snd.tr.dial = func(addr string) (net.Conn, error) { return a, nil }
 	done := make(chan struct{})
